@@ -45,6 +45,16 @@ class WithKwargs(Exception):
         self.kwargs = kwargs
 
 
+class StrictError(Exception):
+    """constructor that fails with something other than TypeError when the carried payload does not suit it"""
+
+    def __init__(self, *args, **kwargs):
+        Exception.__init__(self, *args)
+        self.kwargs = {"info": kwargs["info"]}  # KeyError without it
+        if len(args) > 2:
+            raise ValueError("too many arguments")
+
+
 _decorated = {}
 
 
@@ -87,7 +97,8 @@ class World(DuoWorld):
             "ser_callee": ch.pick(SERIALIZERS, "ser-callee"),
             "ser_caller": ch.pick(SERIALIZERS, "ser-caller"),
             "traceback": ch.flag("traceback_app", 0.3),
-            "caller_knows": [n for n in ("decorated", "defined", "picky", "kwonly", "withkwargs", "defined-as-picky") if ch.flag("caller:" + n)],
+            "caller_knows": [n for n in ("decorated", "defined", "picky", "kwonly", "withkwargs", "defined-as-picky", "withkwargs-as-strict",
+                                                 "defined-as-strict") if ch.flag("caller:" + n)],
             "callee_defines": ch.flag("callee-defines", 0.8),
         }
         Dec = decorated_class()
@@ -120,6 +131,13 @@ class World(DuoWorld):
             elif n == "withkwargs":
                 caller.define(WithKwargs, "com.example.withkwargs")
                 self.caller_map["com.example.withkwargs"] = WithKwargs
+            elif n == "withkwargs-as-strict" and "com.example.withkwargs" not in self.caller_map:
+                # constructor raises KeyError / ValueError (not TypeError) for some carried payloads
+                caller.define(StrictError, "com.example.withkwargs")
+                self.caller_map["com.example.withkwargs"] = StrictError
+            elif n == "defined-as-strict" and "com.example.defined" not in self.caller_map:
+                caller.define(StrictError, "com.example.defined")
+                self.caller_map["com.example.defined"] = StrictError
             elif n == "defined-as-picky" and "com.example.defined" not in self.caller_map:
                 # the caller maps the URI to a class whose constructor fits only two-argument errors
                 caller.define(PickyError, "com.example.defined")
@@ -316,6 +334,12 @@ class World(DuoWorld):
                 run.violate("C18.class-or-generic", "generic-although-registered-class-constructible:%s" % ecls.__name__, uri)
             else:
                 run.probe("constructor-incompatible-fallback")
+                try:
+                    ecls(*a, **k)
+                except TypeError:
+                    pass
+                except Exception as e:  # noqa
+                    run.probe("constructor-raised-%s-fallback" % type(e).__name__)
         if exc.error != uri or tuple(jsonish(list(exc.args))) != a or jsonish(exc.kwargs) != k:
             run.violate("C18.never-lost", "generic-error-content-differs", "%s %r %r vs %s %r %r" % (exc.error, exc.args, exc.kwargs, uri, a, k))
 
